@@ -138,8 +138,17 @@ def run_harnesses(harnesses, jobs=4, harness_timeout=900, outer_timeout=3600, ta
     if cb:
         cmd += ["--cbmc-args"] + cb
     killed = []
+    def _unlimited_stack():
+        # CBMC's symbolic execution recurses deeply on this crate; with the default 8 MiB stack it
+        # segfaults (exit 139) on several harnesses
+        import resource
+        try:
+            resource.setrlimit(resource.RLIMIT_STACK, (resource.RLIM_INFINITY, resource.RLIM_INFINITY))
+        except (ValueError, OSError):
+            pass
+
     proc = subprocess.Popen(cmd, cwd=REPO, env=ENV, stdout=subprocess.PIPE, stderr=subprocess.STDOUT, text=True,
-                            start_new_session=True)
+                            start_new_session=True, preexec_fn=_unlimited_stack)
     stop = threading.Event()
 
     def watchdog():
@@ -416,3 +425,37 @@ def native_replay(h, test_text, timeout=5400):
     ran = re.search(r"test result: (\w+)\. (\d+) passed; (\d+) failed", out)
     reproduced = bool(ran and int(ran.group(3)) >= 1)
     return reproduced, out[-4000:], tname
+
+
+def ensure_replay_slots():
+    slot_dir = os.path.join(BUILD, "replay")
+    os.makedirs(slot_dir, exist_ok=True)
+    for path in glob.glob(os.path.join(ROOT, "kani", "*_proofs.rs")):
+        slot = os.path.join(slot_dir, os.path.basename(path).replace("_proofs.rs", ".rs"))
+        if not os.path.exists(slot):
+            with open(slot, "w") as f:
+                f.write("// replay slot (written by lib/kani_run.py)\n")
+
+
+def native_search(test_name, rounds=None, seed=0, timeout=5400):
+    """Run a `#[cfg(test)]` failing-input search that lives in a proofs module, natively against the
+    real crate (cargo kani playback builds the crate with cfg(kani)+cfg(test)). Returns
+    (hit_message or None, log_tail). A hit is a panic line starting with VERIF-SEARCH-HIT."""
+    ensure_replay_slots()
+    env = dict(ENV, CARGO_TARGET_DIR=PB_TARGET, RUST_BACKTRACE="0", VERIF_SEED=str(seed))
+    if rounds:
+        env["VERIF_SEARCH_ROUNDS"] = str(rounds)
+    cmd = ["cargo", "kani", "playback", "-Z", "concrete-playback", "-Z", "function-contracts", "-Z", "stubbing",
+           "--lib", "--", test_name, "--nocapture"]
+    try:
+        p = subprocess.run(cmd, cwd=REPO, env=env, capture_output=True, text=True, timeout=timeout)
+        out = p.stdout + "\n" + p.stderr
+    except subprocess.TimeoutExpired:
+        return None, "native search timed out"
+    m = re.search(r"VERIF-SEARCH-HIT ([^\n]*)", out)
+    ran = re.search(r"test result: (\w+)\. (\d+) passed; (\d+) failed", out)
+    if m:
+        return m.group(1).strip(), out[-3000:]
+    if not ran:
+        return None, "native search did not run: " + out[-2500:]
+    return None, out[-1500:]
